@@ -76,6 +76,12 @@ pub fn check(p: &Pos, rep: &mut Report, rng: &mut StdRng, maps: &mut Maps) {
             let bb = load(p)?;
             let mv = match find_move(&bb, &u) { Some(mv) => mv, None => return Ok(None) };
             let (dx, dp) = Bitboard::zobrist_xor(mv);
+            // the Move value the capture/promotion-only generator builds for the same move (what the
+            // quiescence search feeds to zobrist_xor) must carry the same delta
+            let mut bq = load(p)?;
+            if let Some(q) = bq.generate_pseudo_legal_non_quiescent_moves().into_iter().find(|x| x.to_uci_string() == u) {
+                if Bitboard::zobrist_xor(q) != (dx, dp) { return Err(format!("DELTA-MISMATCH capture-generator move {} carries another hash delta than the full generator's", u)); }
+            }
             let hn = hashes(&n)?;
             // also the board's own successor, to tie the delta to make()
             let mut bb2 = load(p)?;
@@ -89,6 +95,7 @@ pub fn check(p: &Pos, rep: &mut Report, rng: &mut StdRng, maps: &mut Maps) {
         let kind = move_kind(p, &u);
         match r {
             Err(pm) => rep.violation(&format!("xor-{}", panic_sig(&pm)), format!("zobrist_xor({}) panicked in {}: {}", u, fen, pm), json!({"kind":"c06","fen":fen,"move":u})),
+            Ok(Err(e)) if e.starts_with("DELTA-MISMATCH") => rep.violation(&format!("capture-generator-move-delta:{}", kind), format!("{} in {}", e, fen), json!({"kind":"c06","fen":fen,"move":u})),
             Ok(Err(e)) => rep.violation("load-failed", e, json!({"kind":"c06","fen":fen,"move":u})),
             Ok(Ok(None)) => rep.inconclusive("legal move not offered by the generator (C01 matter)"),
             Ok(Ok(Some((dx, dp, hn, hmade, hback)))) => {
